@@ -9,8 +9,8 @@ Import ListNotations. Local Open Scope N_scope.
 (* create; decompress(in, out); destroy on the SZDD front end + LZSS decoder, for EVERY host:
    last_error() equals the returned status, and a returned MSPACK_ERR_OK means that no callback failed during the whole script
    (so with a deterministic host the run IS the failure-free run). *)
-Theorem C10_szdd_decompress_reports_failures : forall (o : oracle) fuel,
-  let '((e, le), m) := run o mon0 (script_decompress fuel) in
+Theorem C10_szdd_decompress_reports_failures : forall (o : oracle) junk fuel,
+  let '((e, le), m) := run o mon0 (script_decompress junk fuel) in
   le = e /\ (e = MSPACK_ERR_OK -> hfail m = false).
 Proof. exact szdd_decompress_reports_failures. Qed.
 Print Assumptions C10_szdd_decompress_reports_failures.
